@@ -53,16 +53,35 @@ Qed.
 
 (* for EVERY sequence of calls (any buffers, positions, directives), from a new session: every accepted call reads only inside
    the buffer it was given *)
-Fixpoint all_in_bounds (bs : Z) (s : sst) (cs : list call) : Prop :=
-  match cs with [] => True | c :: t => in_bounds c (snd (step bs s c)) /\ all_in_bounds bs (fst (step bs s c)) t end.
+Definition op_in_bounds (o : sop) (r : res) : Prop := match o with SCall c => in_bounds c r | SReset => True end.
+Fixpoint all_in_bounds (bs : Z) (s : sst) (os : list sop) : Prop :=
+  match os with [] => True | o :: t => op_in_bounds o (snd (ostep bs s o)) /\ all_in_bounds bs (fst (ostep bs s o)) t end.
 
-Theorem stable_input_reads_in_bounds : forall bs cs, 0 < bs -> all_in_bounds bs s_fresh cs.
+Lemma ostep_ok : forall bs s o, 0 < bs -> SInv s -> SInv (fst (ostep bs s o)) /\ op_in_bounds o (snd (ostep bs s o)).
 Proof.
-  intros bs cs Hbs.
-  assert (G : forall cs s, SInv s -> all_in_bounds bs s cs).
-  { induction cs0 as [|c t IH]; intros s I; simpl; [exact Logic.I |].
-    destruct (step_ok bs s c Hbs I) as [I' B]. split; [exact B | apply IH, I']. }
+  intros bs s [c|] Hbs I; simpl; [apply step_ok; assumption |].
+  destruct s as [op nc es ep]. split; [unfold SInv; simpl; split; [apply Z.le_refl | left; reflexivity] | exact Logic.I].
+Qed.
+
+Theorem stable_input_reads_in_bounds : forall bs os, 0 < bs -> all_in_bounds bs s_fresh os.
+Proof.
+  intros bs os Hbs.
+  assert (G : forall os s, SInv s -> all_in_bounds bs s os).
+  { induction os0 as [|o t IH]; intros s I; simpl; [exact Logic.I |].
+    destruct (ostep_ok bs s o Hbs I) as [I' B]. split; [exact B | apply IH, I']. }
   apply G. unfold SInv; simpl. lia.
+Qed.
+
+(* a session reset in the middle of a deferred start really forgets the deferred bytes: the next frame may use any buffer *)
+Theorem reset_forgets_deferred_input : forall bs s c, 0 < bs -> 0 <= c_pos c <= c_size c ->
+  exists lo hi, snd (step bs (sreset s) c) = Read lo hi /\ (lo = hi \/ c_src c + c_pos c <= lo).
+Proof.
+  intros bs s c Hbs [H1 H2]. unfold step, sreset; simpl.
+  assert (V : (0 <=? c_pos c) && (c_pos c <=? c_size c) = true) by (apply andb_true_iff; split; apply Z.leb_le; assumption).
+  rewrite V; simpl.
+  destruct (is_continue (c_dir c) && (c_size c - c_pos c + 0 <? BLOCKSIZE_MAX)).
+  - exists (c_src c), (c_src c). split; [reflexivity | left; reflexivity].
+  - unfold consume; simpl. eexists; eexists; split; [reflexivity | right; lia].
 Qed.
 
 (* the bytes read are the caller's bytes in order: an accepted call that reads something while bytes are pending starts exactly
@@ -95,6 +114,6 @@ Proof. repeat split; vm_compute; reflexivity. Qed.
 
 (* the hypotheses are satisfiable and the deferral really happens: three calls on one growing buffer *)
 Example stable_input_example :
-  strace false 131072 s_fresh [mkC 7000 1000 0 DContinue; mkC 7000 200000 1000 DContinue; mkC 7000 200100 200000 DEnd]
-  = [1; 0; 0;  1; 0; 131072;  1; 131072; 200100].
+  strace false 131072 s_fresh [SCall (mkC 7000 1000 0 DContinue); SCall (mkC 7000 200000 1000 DContinue); SCall (mkC 7000 200100 200000 DEnd)]
+  = [1; 0; 0; 0; 1000;  1; 0; 131072; 1; 68928;  1; 131072; 200100; 0; 0].
 Proof. vm_compute. reflexivity. Qed.
